@@ -209,7 +209,11 @@ def map(
     # Distance to the plane
     diagonal = np.sqrt(ndim)
     xyz = position - origin
-    selection_distance = 0.5 * diagonal * (dz if thick else cell_size)
+    # A cell can be cut by the plane if its centre is closer to it than the cell's
+    # half-diagonal; for a slab, half the thickness is added to that distance
+    selection_distance = 0.5 * diagonal * cell_size
+    if thick:
+        selection_distance = selection_distance + 0.5 * dz
 
     normal = basis.n
     vec_u = basis.u
